@@ -255,16 +255,24 @@ func cmdRun(args []string) int {
 	replayDir := filepath.Join(vd, "replays")
 	for _, s := range sigOrder {
 		si := sigs[s]
-		nt := natives[si.pkg]
+		nkey := si.pkg
+		if si.first.SchedFree {
+			nkey += "#race"
+		}
+		nt := natives[nkey]
 		if nt == nil {
 			var err error
-			nt, err = BuildNativeTest(*repo, filepath.Join(vd, "harness"), si.pkg)
+			if si.first.SchedFree {
+				nt, err = BuildNativeTestRace(*repo, filepath.Join(vd, "harness"), si.pkg)
+			} else {
+				nt, err = BuildNativeTest(*repo, filepath.Join(vd, "harness"), si.pkg)
+			}
 			if err != nil {
 				inconclusive = append(inconclusive, "native replay build failed: "+err.Error())
-				natives[si.pkg] = &NativeTest{}
+				natives[nkey] = &NativeTest{}
 				continue
 			}
-			natives[si.pkg] = nt
+			natives[nkey] = nt
 		}
 		if nt.Bin == "" {
 			continue
